@@ -406,7 +406,7 @@ def main(tier, seed):
     try:
         translate()
         run.obligation("translate:tools.effective_sample_size+trim_weights", True)
-    except TranslateError as e:
+    except Exception as e:  # fail closed: anything the translator cannot digest
         run.obligation("translate:tools.effective_sample_size+trim_weights", False, str(e))
     run.prove("Props/C20.v", link_rels=["Link/Weights.v"])
     run.prove("Props/C20V.v")
